@@ -1,6 +1,6 @@
 From Stam Require Import Base.Tac Model.Offset Model.Store Model.StoreObs Spec.StoreSpec
      Proofs.StoreScan Proofs.StoreInv Proofs.StoreDataDef Proofs.StoreRemove Proofs.StoreRemove2
-     Proofs.StoreRemove3 Proofs.StoreData Proofs.StoreExact Proofs.StoreExactData Props.C02.
+     Proofs.StoreRemove3 Proofs.StoreData Proofs.StoreExact Proofs.StoreExactData Proofs.StoreSets Proofs.StoreExactKey Props.C02.
 Check (C02_nothing_dangles : forall ops, let s := run ops in ann_refs_ok s /\ item_refs_ok s /\ data_ok s).
 Check (C02_every_step_keeps_the_store_sound : forall s o, Good s -> Good (fst (step s o))).
 Check (C02_remove_annotation_cascade : forall ex fuel s h,
@@ -29,6 +29,15 @@ Check (C02_remove_data_exact : forall ops d x strict,
   let s' := fst (remove_data_h s d x strict) in
   (forall y, get_ann s y <> None -> (get_ann s' y = None <-> In y (deps_data s d x strict)))
   /\ (forall y a', get_ann s' y = Some a' -> exists a, get_ann s y = Some a /\ a' = ann_remove_data a d x)).
+Check (C02_remove_key_exact : forall ops dr kr strict d ds k tok,
+  Forall op_ok ops ->
+  let s := run ops in
+  to_handle (sidx s) dr = Some d -> get_set s d = Some ds -> to_handle (d_kidx ds) kr = Some k ->
+  slot (d_keys ds) k = Some tok ->
+  let s' := fst (rm_key s dr kr strict) in
+  (forall y, get_ann s y <> None -> (get_ann s' y = None <-> In y (deps_key s ds d k strict)))
+  /\ (forall y a', get_ann s' y = Some a' -> exists a, get_ann s y = Some a /\ a' = stripk (s_key_data ds k) d a)).
+Print Assumptions C02_remove_key_exact.
 Print Assumptions C02_remove_annotation_exact.
 Print Assumptions C02_remove_data_exact.
 Print Assumptions C02_closure_meaning.
